@@ -19,6 +19,7 @@ func init() {
 			"PV-PAIR rangeAggIterator.Next output: the reported series are walked from a key list computed from the window in the same step",
 			"PV-RESET literalBinOpIterator.Next: accepted results reach r.Samples and the list is cut/set to them",
 			"PV-ALIAS label values shared with the record's attribute maps are never rewritten in place; PV-PAIR every reported record carries its own stream's resource attributes",
+			"line_format result is a copy; eviction at every step; no unsafe.String; LabelSet.Range visits every label",
 		},
 		NotDecided: []string{"64-bit hash collisions between distinct encodings", "count conservation as arithmetic"},
 		Rules: func(r *Run) {
@@ -39,7 +40,10 @@ func init() {
 			ruleRangeWindow(r) // every series of the window is reported: the key list is computed from the window in this step
 			ruleLiteralBinOpWritesBack(r)
 			ruleNoInPlaceValueMutation(r, []string{enginePkg, metricPkg}, 2)
-			ruleRecordOrigin(r) // a series keeps the labels of its own container
+			ruleRecordOrigin(r)    // a series keeps the labels of its own container
+			ruleTemplateBinding(r) // labels cut out of a formatted line own their bytes
+			ruleNoUnsafeStrings(r, []string{enginePkg, dockerlogPkg})
+			ruleLabelSetRangeWhole(r)
 		},
 	})
 }
